@@ -254,6 +254,21 @@ fn ints(out: &mut Vec<Decl>) {
             let d = std(Decl::new(inner), vals).tag(&format!("int-extreme:{name}"));
             out.push(with_derives(d, &[Tr::Debug, Tr::Clone, Tr::PartialEq, Tr::TryFrom, Tr::FromStr, Tr::Arbitrary]));
         }
+        // the literal 0 as a bound, on every type (vacuous on unsigned types, the sign boundary on signed ones)
+        let mut zero: Vec<(&str, Vec<ValSpec>)> = vec![
+            ("ge0", vec![ValSpec::GreaterEq(b_int(*t, 0))]),
+            ("g0", vec![ValSpec::Greater(b_int(*t, 0))]),
+            ("le0", vec![ValSpec::LessEq(b_int(*t, 0))]),
+            ("ge0+le100", vec![ValSpec::GreaterEq(b_int(*t, 0)), ValSpec::LessEq(b_int(*t, 100))]),
+        ];
+        if t.signed() {
+            zero.push(("l0", vec![ValSpec::Less(b_int(*t, 0))]));
+            zero.push(("g-1", vec![ValSpec::Greater(b_int(*t, -1))]));
+        }
+        for (name, vals) in zero {
+            let d = std(Decl::new(inner), vals).tag(&format!("int-zero-bound:{name}"));
+            out.push(with_derives(d, &[Tr::Debug, Tr::Clone, Tr::PartialEq, Tr::TryFrom, Tr::FromStr, Tr::Display, Tr::Serialize, Tr::Deserialize, Tr::Arbitrary]));
+        }
         // no validation at all
         let d = Decl::new(inner).tag("int-novalidation");
         out.push(with_full(d));
@@ -852,6 +867,14 @@ fn strings(out: &mut Vec<Decl>) {
             vec![w("s_prepz", 14), Trim, Lower],
             vec![Upper, w("s_appendx", 15), Trim],
             vec![w("s_trunc5", 16), Lower, Trim],
+            // idempotent functions BETWEEN two built-ins whose output the later built-in has to clean up
+            vec![Lower, w("s_at2sp", 17), Trim],
+            vec![Upper, w("s_at2sp", 18), Trim],
+            vec![Trim, w("s_bang2z", 19), Lower],
+            vec![Trim, w("s_at2sp", 20), Upper],
+            vec![w("s_at2sp", 21), Trim],
+            vec![w("s_bang2z", 22), Lower],
+            vec![Lower, w("s_bang2z", 23)],
         ]
     };
     let val_sets: Vec<(&str, Vals)> = {
@@ -963,6 +986,38 @@ fn strings(out: &mut Vec<Decl>) {
         d.sans = vec![SanSpec::Trim, SanSpec::Lower];
         d.default = Some(DefaultSpec { macro_text: mt.into(), neutral_text: mt.into(), class: class.into() });
         out.push(with_derives(d, &[Tr::Debug, Tr::Clone, Tr::PartialEq, Tr::Default, Tr::TryFrom]));
+    }
+    // length bounds spelled as expressions with an operator at the top level: any code that re-uses the bound
+    // inside a larger expression (`bound * 4`, `bound + 1`) has to group it
+    {
+        let exprs: Vec<(&str, &str, u128)> = vec![
+            ("add", "KA + 1", 6),
+            ("sub", "KB - 90", 10),
+            ("mul", "KA * 2", 10),
+            ("shl", "ONE << 3", 8),
+            ("bitor", "KA | 2", 7),
+            ("bitand", "KB & 12", 4),
+            ("cast", "KA as u8 as usize", 5),
+            ("if-expr", "if KA > 3 { 9 } else { 1 }", 9),
+        ];
+        for (i, (class, text, v)) in exprs.iter().enumerate() {
+            let b = || spelled(class, text, text, Num::U(*v), false);
+            for (ki, vals) in [
+                vec![ValSpec::LenCharMax(b())],
+                vec![ValSpec::LenCharMin(b())],
+                vec![ValSpec::LenCharMin(lit_u(1)), ValSpec::LenCharMax(b())],
+                vec![ValSpec::LenCharMin(b()), ValSpec::LenCharMax(lit_u(40))],
+            ]
+            .into_iter()
+            .enumerate()
+            {
+                let mut d = std(Decl::new(inner), vals).tag(&format!("str-len-expr:{class}:{ki}"));
+                if (i + ki) % 3 == 0 {
+                    d.sans = vec![SanSpec::Trim];
+                }
+                out.push(with_derives(d, &[Tr::Debug, Tr::Clone, Tr::PartialEq, Tr::TryFrom, Tr::FromStr, Tr::Serialize, Tr::Deserialize, Tr::Arbitrary]));
+            }
+        }
     }
     // vacuous rules (always satisfied) still own their error variant and their place in the order
     for (i, vals) in [
